@@ -45,7 +45,7 @@ PROPS = {
         "assumptions": [],
     },
     "C07": {
-        "extra_props": ["ReachAll", "FullSys", "FullSysExample"],
+        "extra_props": ["ReachAll", "FullSys", "FullSysExample", "EndpointsFull"],
         "spec_ops": ["c q headers"],
         "streams": [{"name": "ledger", "quick": 160, "thorough": 1600}, {"name": "sync", "quick": 64, "thorough": 800}],
         "rule": LEDGER_RULE + " Header ranges (start, end) up to tip+2 are requested after steps and at pauses of sliced ingestions; the specification column of every `q headers` line is the slice of (stable chain ++ heaviest branch) computed by the driver.",
@@ -107,7 +107,7 @@ PROPS = {
         "assumptions": ["Address::from_script and txid computation are library functions (given)"],
     },
     "C05": {
-        "extra_props": ["ReachAll", "FullSys", "FullSysExample", "AddrParse"],
+        "extra_props": ["ReachAll", "FullSys", "FullSysExample", "AddrParse", "EndpointsFull"],
         "spec_ops": ["c sumat"],
         "streams": [{"name": "ledger", "quick": 160, "thorough": 1600}, {"name": "sync", "quick": 64, "thorough": 800}],
         "rule": LEDGER_RULE,
@@ -148,7 +148,7 @@ PROPS = {
     "C03": {
         "model_spec_ops": ["c advance"],
         "spec_ops": ["c advance"],
-        "extra_props": ["C03History", "FullCor", "FullCorExample"],
+        "extra_props": ["C03History", "FullCor", "FullCorExample", "SpecsExtra"],
         "streams": [{"name": "ledger", "quick": 160, "thorough": 1600}, {"name": "sync", "quick": 80, "thorough": 800}],
         "rule": LEDGER_RULE + " After every ingestion opportunity the line `advance` records how many anchors were popped, whether the new anchor lies on the chain served before, and whether a stable child is still pending.",
         "explanation": "theorems: get_stable_child = some i iff child i satisfies the difficulty rule or (testnet/regtest) the depth rule, both directions, = none iff no child does, uniqueness; the selected child is always the "
@@ -173,6 +173,7 @@ PROPS = {
         "assumptions": ["blocks fed through unstable_blocks::push with mock difficulties"],
     },
     "C11": {
+        "extra_props": ["SpecsExtraC11"],
         "model_spec_ops": ["h "],
         "spec_ops": [],
         "streams": [{"name": "hdr", "quick": 160, "thorough": 2400}, {"name": "sync", "quick": 96, "thorough": 1600}],
@@ -229,7 +230,7 @@ PROPS = {
         "assumptions": [],
     },
     "C19": {
-        "extra_props": ["NetSpelling"],
+        "extra_props": ["NetSpelling", "EndpointsFull"],
         "model_spec_ops": ["x decode"],
         "spec_ops": ["c sendtx"],
         "streams": [{"name": "txc", "quick": 3000, "thorough": 60000}, {"name": "sync", "quick": 160, "thorough": 1600}],
@@ -244,7 +245,7 @@ PROPS = {
         "assumptions": ["payload elements are bytes (< 256)"],
     },
     "C14": {
-        "extra_props": ["NetSpelling", "FullCor", "FullCorExample", "HeaderSlots", "GuardTable", "AddrParse"],
+        "extra_props": ["NetSpelling", "FullCor", "FullCorExample", "HeaderSlots", "GuardTable", "AddrParse", "EndpointsFull"],
         "model_spec_ops": ["c q synced"],
         "spec_ops": ["c call"],
         "streams": [{"name": "sync", "quick": 160, "thorough": 3200}],
@@ -257,7 +258,7 @@ PROPS = {
         "assumptions": ["native build: a panic is the observable 'trap'; is_watchdog_caller/controller checks of set_config are wasm-only and not modelled"],
     },
     "C16": {
-        "extra_props": ["FullCor", "FullCorExample"],
+        "extra_props": ["FullCor", "FullCorExample", "EndpointsFull"],
         "spec_ops": ["c call"],
         "streams": [{"name": "sync", "quick": 160, "thorough": 3200}],
         "rule": SYNC_RULE,
@@ -269,7 +270,7 @@ PROPS = {
         "assumptions": ["the native mock of msg_cycles_available does not decrease after msg_cycles_accept; on the IC it does, which cannot matter because fee <= maximum - base"],
     },
     "C02": {
-        "extra_props": ["FullCor", "FullCorExample"],
+        "extra_props": ["FullCor", "FullCorExample", "SpecsExtra"],
         "model_spec_ops": ["c bestat"],
         "spec_ops": ["c bestat"],
         "streams": [{"name": "ledger", "quick": 160, "thorough": 1600}],
@@ -283,6 +284,7 @@ PROPS = {
         "assumptions": ["blocks are fed through unstable_blocks::push with mock difficulties (validation is covered by C10-C12)"],
     },
     "C17": {
+        "extra_props": ["SpecsExtraC17"],
         "spec_ops": [],
         "technique": "Lean 4 theorems (decision = quorum spec, Perm-invariance, latest-round-only) + differential correspondence watchdog crate vs compiled Lean model",
         "level_text": "Machine-checked theorems over the Lean model of median/calculate_height_target/compare/calculate_target/storage for all height lists, configurations and orders (no bound); the model is tied to the watchdog crate by a differential stream that includes an exhaustive palette sub-space per target configuration.",
